@@ -195,16 +195,62 @@ func checkC19(c *Ctx, p *Prog, r *Result) {
 	}
 
 	// ---- guarded-by (E4) ----
-	guards := []guardedField{
-		{"fdo/serviceinfo.bufPipe.buf", "fdo/serviceinfo.bufPipe.Mutex"},
-		{"fdo/serviceinfo.bufPipe.err", "fdo/serviceinfo.bufPipe.Mutex"},
+	// guarded fields are discovered, not named: in every struct of package
+	// serviceinfo that has exactly one sync.Mutex field (embedded or named), the
+	// fields of type bytes.Buffer and error are guarded by it (today: the
+	// in-memory pipe's buffer and its close error)
+	var guards []guardedField
+	errField := map[string]bool{}
+	for _, pk := range p.Pkgs {
+		if pk.PkgPath != modulePath+"/serviceinfo" {
+			continue
+		}
+		scope := pk.Types.Scope()
+		for _, nm := range scope.Names() {
+			tn, ok := scope.Lookup(nm).(*types.TypeName)
+			if !ok {
+				continue
+			}
+			st, ok := tn.Type().Underlying().(*types.Struct)
+			if !ok {
+				continue
+			}
+			mu := ""
+			nMu := 0
+			for i := 0; i < st.NumFields(); i++ {
+				if typeShort(st.Field(i).Type()) == "sync.Mutex" {
+					mu = st.Field(i).Name()
+					nMu++
+				}
+			}
+			if nMu != 1 {
+				continue
+			}
+			owner := typeShort(tn.Type())
+			for i := 0; i < st.NumFields(); i++ {
+				ft := st.Field(i).Type()
+				switch {
+				case typeShort(ft) == "bytes.Buffer":
+					guards = append(guards, guardedField{owner + "." + st.Field(i).Name(), owner + "." + mu})
+				case isErrorType(ft):
+					guards = append(guards, guardedField{owner + "." + st.Field(i).Name(), owner + "." + mu})
+					errField[owner+"."+st.Field(i).Name()] = true
+				}
+			}
+		}
+	}
+	if len(guards) < 2 {
+		r.fail("C19.guarded-by: expected a mutex-guarded buffer and error field in package serviceinfo, found %d guarded fields", len(guards))
 	}
 	closes := map[string]string{
 		"fdo/serviceinfo.UnchunkWriter.readers": "fdo/serviceinfo.UnchunkWriter.readerMu",
 		"fdo/serviceinfo.UnchunkWriter.closing": "fdo/serviceinfo.UnchunkWriter.closeMu",
 	}
-	exceptions := map[string]string{
-		"fdo/serviceinfo.bufPipe.Read|fdo/serviceinfo.bufPipe.err": "read after the receive on ch observed its close: err is assigned under the mutex before close(ch), and never afterwards",
+	// one reviewed exception, identified structurally: the Read method's load of
+	// the guarded error field
+	exceptionReason := "read after the receive on the wake-up channel observed its close: the error is assigned under the mutex before that channel is closed, and never afterwards"
+	isException := func(fn *ssa.Function, fld string) bool {
+		return fn.Name() == "Read" && errField[fld]
 	}
 	r.rule("C19.guarded-by", "every access to bufPipe.buf / bufPipe.err happens with bufPipe's mutex held; UnchunkWriter.readers is closed only under readerMu and UnchunkWriter.closing only under closeMu (one reviewed exception)")
 	r.floor("C19.guarded-by", 8)
@@ -269,17 +315,32 @@ func checkC19(c *Ctx, p *Prog, r *Result) {
 		return false
 	}}
 	rs := &RuleSet{Atoms: []AtomDef{lockAtoms(), openAtom, indClosed}}
+	// one flow over the package: entry points are the functions no other
+	// function of the package calls; helpers get their calling context from the
+	// call sites (a close moved into a helper keeps the facts of its callers)
+	sipkg := modulePath + "/serviceinfo"
+	var siRoots []*ssa.Function
 	for _, fn := range p.Funcs {
-		if funcPkgPath(fn) != modulePath+"/serviceinfo" {
+		if funcPkgPath(fn) != sipkg {
 			continue
 		}
-		var f *Flow
-		flow := func() *Flow {
-			if f == nil {
-				f = NewFlow(p, rs, []*ssa.Function{fn}, func(g *ssa.Function) bool { return g != fn })
+		called := false
+		for _, ed := range p.CallGraph().in[fn] {
+			if funcPkgPath(ed.Caller) == sipkg && ed.Caller != fn && (ed.Kind == "static" || ed.Kind == "closure") {
+				called = true
 			}
-			return f
 		}
+		if !called {
+			siRoots = append(siRoots, fn)
+		}
+	}
+	sortFuncs(p, siRoots)
+	pkgFlow := NewFlow(p, rs, siRoots, func(g *ssa.Function) bool { return funcPkgPath(g) != sipkg })
+	for _, fn := range p.Funcs {
+		if funcPkgPath(fn) != sipkg {
+			continue
+		}
+		flow := func() *Flow { return pkgFlow }
 		k := 0
 		for _, b := range fn.Blocks {
 			for _, in := range b.Instrs {
@@ -298,9 +359,9 @@ func checkC19(c *Ctx, p *Prog, r *Result) {
 							ok2 := st.Has(mu)
 							detail := "requires " + mu
 							if !ok2 {
-								if reason, ex := exceptions[p.FuncName(fn)+"|"+fld]; ex {
+								if isException(fn, fld) {
 									if _, isLoad := ref.(*ssa.UnOp); isLoad {
-										ok2, detail = true, "reviewed exception: "+reason
+										ok2, detail = true, "reviewed exception: "+exceptionReason
 									}
 								}
 							}
